@@ -1176,7 +1176,11 @@ type gtParam struct {
 	ptr    bool     // passed by pointer
 }
 
-type gtAbstract struct{ name, typ string }
+// gtAbstract: a parameter of the translated function that stands for something the subset does not model.  key orders
+// the parameters that could be confused with one another (several of the same type: the regexps of a package, the
+// interface-typed fields of a node): by DECLARATION position, never by the order in which the body uses them, so that
+// swapping two uses changes the body and not the binders.  Parameters without a key come first, in order of first use.
+type gtAbstract struct{ name, typ, key string }
 
 type gtFn struct {
 	key      string // dir:Name or dir:Recv.Name
@@ -1204,6 +1208,13 @@ func (fn *gtFn) addAbstract(a gtAbstract) {
 		}
 	}
 	fn.abstracts = append(fn.abstracts, a)
+	sort.SliceStable(fn.abstracts, func(i, j int) bool {
+		ki, kj := fn.abstracts[i].key, fn.abstracts[j].key
+		if ki == "" || kj == "" {
+			return ki == "" && kj != ""
+		}
+		return ki < kj
+	})
 }
 
 var valueParamOrder = []struct{ name, typ string }{{"val_kind", "V -> Z"}, {"val_undefined", "V"}, {"val_null", "V"},
@@ -1274,9 +1285,9 @@ type gtState struct {
 	tables       map[string]*gtype // emitted package-level map literals: coq name -> type
 	pending      []string          // texts to emit, in dependency order
 	family       string
-	loopTexts    map[string]string // emitted loop functions, by name
+	loopTexts    map[string]string      // emitted loop functions, by name
 	tableRows    map[string][][2]string // the (key, value) rows of the map literals emitted so far
-	joins        bool              // translate ifs whose branches cannot leave as expressions (joinIf)
+	joins        bool                   // translate ifs whose branches cannot leave as expressions (joinIf)
 }
 
 var gtStates = map[*gen]*gtState{}
